@@ -1690,23 +1690,27 @@ def _signatures(ctx):
 
 
 # ---------------------------------------------------------------- triage: which replays are self-contained
-def _fresh_impl(op, inp, timeout=300):
-    """the implementation's output in a new interpreter (harness/c08_worker.py); None when that cannot be had"""
+def _fresh_impls(items, timeout=600):
+    """the implementation's outputs on `items` [(op name, input)], each in a new interpreter state
+    (harness/c08_worker.py: one forked child per item); None where that cannot be had"""
     import json
     import os
     import subprocess
     import sys
     from ..c08_worker import MARK
+    outs = [None] * len(items)
     try:
-        p = subprocess.run([sys.executable, "-m", "harness.c08_worker"], input=json.dumps({"op": op, "input": inp}),
+        p = subprocess.run([sys.executable, "-m", "harness.c08_worker"],
+                           input=json.dumps({"items": [{"op": op, "input": inp} for op, inp in items]}),
                            cwd=leanio.VERIF, env=dict(os.environ), stdout=subprocess.PIPE, stderr=subprocess.DEVNULL, text=True,
                            timeout=timeout)
         for line in p.stdout.splitlines():
             if line.startswith(MARK):
-                return json.loads(line[len(MARK):])
+                rec = json.loads(line[len(MARK):])
+                outs[rec["k"]] = rec["out"]
     except Exception:  # noqa: BLE001
-        return None
-    return None
+        pass
+    return outs
 
 
 def _judge_again(ctx, op, inp, io):
@@ -1736,17 +1740,6 @@ def _triage(ctx):
         return
     size = lambda f: len(core_jkey(f.inp))                     # noqa: E731
 
-    def fresh(f):
-        io = _fresh_impl(f.op, f.inp)
-        if io is None:
-            return None
-        try:
-            return io, _judge_again(ctx, OPS[f.op], f.inp, io)
-        except leanio.InfraError:
-            raise
-        except Exception:  # noqa: BLE001
-            return None
-
     def smallest(cands, k):
         seen, out = set(), []
         for f in sorted(cands, key=size):
@@ -1757,40 +1750,45 @@ def _triage(ctx):
         return out[:k]
 
     plain = [f for f in fs if f.op != "detection_history"]
-    hist = [f for f in fs if f.op == "detection_history"]
-    dependent = False
-    for f in smallest(plain, 2):
-        r = fresh(f)
-        if r is None:
+    hist = sorted((f for f in fs if f.op == "detection_history"), key=size)[:40]
+    batch = smallest(plain, 3) + hist
+    ios = _fresh_impls([(f.op, f.inp) for f in batch])
+
+    def again(f, io):
+        if io is None:
+            return None
+        try:
+            return _judge_again(ctx, OPS[f.op], f.inp, io)
+        except leanio.InfraError:
+            raise
+        except Exception:  # noqa: BLE001
+            return None
+
+    for f, io in zip(batch, ios):
+        if io is None:
             continue
-        io, msg = r
-        if msg:
-            f.detail += " [replay checked: fails in a new interpreter as well]"
-            ctx.tally("triage:self-contained")
-        else:
-            dependent = True
-            sig = f.detail[:40]
-            for g in plain:
-                if g.op == f.op and g.detail[:40] == sig:
-                    g.size = (lambda g=g: 10 ** 9 + size(g))       # listed last
-            f.detail += (" [observed in this run only: the same input passes in a new interpreter - the failure "
-                         "depends on what was called before; see the history replays]")
-            ctx.tally("triage:history-dependent")
-    if hist and (dependent or not plain):
-        for f in smallest(hist, 3):
-            r = fresh(f)
-            if r is None:
-                continue
-            io, msg = r
+        msg = again(f, io)
+        if f.op != "detection_history":
             if msg:
-                f.extra = {**(f.extra or {}), "first_seen_as": f.detail[:300]}
-                f.detail = msg + " [replay checked: this is what a new interpreter shows]"
-                f.impl = io
-                f.size = (lambda f=f: size(f) // 1000)             # self-contained: first
-                ctx.tally("triage:self-contained-history")
+                f.detail += " [replay checked: fails in a new interpreter as well]"
+                ctx.tally("triage:self-contained")
             else:
-                f.size = (lambda f=f: 10 ** 9 + size(f))
+                sig = f.detail[:40]
+                for g in plain:
+                    if g.op == f.op and g.detail[:40] == sig:
+                        g.size = (lambda g=g: 10 ** 9 + size(g))       # listed last
+                f.detail += (" [observed in this run only: the same input passes in a new interpreter - the failure "
+                             "depends on what was called before; see the history replays]")
                 ctx.tally("triage:history-dependent")
+        elif msg:
+            f.extra = {**(f.extra or {}), "first_seen_as": f.detail[:300]}
+            f.detail = msg + " [replay checked: this is what a new interpreter shows]"
+            f.impl = io
+            f.size = (lambda f=f: size(f) // 1000)                 # self-contained history: first
+            ctx.tally("triage:self-contained-history")
+        else:
+            f.size = (lambda f=f: 10 ** 9 + size(f))
+            ctx.tally("triage:history-dependent-history")
 
 
 def run(ctx):
